@@ -319,6 +319,17 @@ func main() {
 	nshards, _ := strconv.Atoi(os.Args[7])
 	rng := rand.New(rand.NewSource(seed))
 	c := &checker{t: t, a: a}
+	// sanity of the loaded automaton (the oracle): three strings whose classification is not in doubt
+	for _, x := range []struct {
+		s       string
+		verdict string
+		safe    bool
+	}{{"javascript:alert(1)", "fail", false}, {"https://example.com/", "pass", true}, {"/javascript:alert(1)", "pass", true}, {"java\tscript:x", "fail", false}} {
+		st := &a.states[a.walk(t, x.s)]
+		if st.Verdict != x.verdict || st.Safe != x.safe {
+			vhlib.Fatal("automaton sanity: %q is classified verdict=%s safe=%v by the TLC-generated automaton", x.s, st.Verdict, st.Safe)
+		}
+	}
 
 	// --- fold: class uniformity of the real sanitiser over every scalar and invalid byte -----------------
 	var kFold counters
@@ -506,7 +517,10 @@ func main() {
 	for i := 0; i < nm && len(vectors)+i < len(vecs); i++ {
 		rs = append(rs, vecs[len(vectors)+i])
 	}
-	exR := 3
+	exR := 2
+	if thorough {
+		exR = 3
+	}
 	var recx func(prefix string, d int)
 	recx = func(prefix string, d int) {
 		rs = append(rs, prefix)
@@ -537,8 +551,8 @@ func main() {
 	ctx := context.Background()
 	for xi, s := range rs {
 		for si, sk := range sinks {
-			if xi < candStart && ((si == 1 && xi%2 != 0) || (si >= 2 && xi%8 != 0)) {
-				continue // the secondary sinks see every second / eighth string (and every candidate)
+			if xi < candStart && ((si == 1 && xi%4 != 0) || (si >= 2 && xi%16 != 0)) {
+				continue // the secondary sinks see every 4th / 16th string (and every candidate)
 			}
 			var buf bytes.Buffer
 			if err := sk.render(s).Render(ctx, &buf); err != nil {
